@@ -198,6 +198,8 @@ type fh struct {
 	nilPre       bool              // the preloaded value is nil / the zero value (tag "nilpre")
 	nestedDerive bool              // ... with a context it derived from its own (WithTimeout), cancelled afterwards (tag "nested-derive")
 	nested       bool              // the builder of key 0 calls Get for key 1 on the same front-end (tag "nested")
+	sideSM       *cache.ShardedMap // caches the builder itself writes to (tag "sidewrite")
+	sideOF       *cache.ShardedMapOf[int]
 	walkFail     bool              // before the Gets start somebody walks the backend and gives up at the first entry (tag "walkfail")
 	slowBuild    bool              // every build lets UpdateTTL+1s of virtual time pass before it returns (tag "slow")
 	ttlCalls     []ttlCall         // WithTTL calls the builder performs (C06)
@@ -838,6 +840,13 @@ func newFH(cfg FCfg) *fh {
 
 // construct creates the front-end and its backend (goroutines started here are daemons).
 func (h *fh) construct(cfg FCfg, bcfg cache.Config, st cache.StatsTracker, lg cache.Logger, ms, ft, upd time.Duration) {
+	for _, t := range cfg.Tags {
+		if t == "sidewrite" {
+			h.sideSM = cache.NewShardedMap(cache.Config{Name: "side", ExpirationJitter: -1}.Use)
+			h.sideOF = cache.NewShardedMapOf[int](cache.Config{Name: "sideOf", ExpirationJitter: -1}.Use)
+		}
+	}
+
 	switch cfg.Front {
 	case 3, 4:
 		var inner cache.ReadWriter
@@ -913,6 +922,19 @@ func (h *fh) builder(k int) func(ctx context.Context) (Tok, error) {
 
 		// A composite value: the builder of the first key needs the second key and asks the same front-end for it,
 		// with the context it was handed.
+		// The builder keeps parts of what it computes in caches of its own, written with the context it was handed and
+		// with keys it composes in a scratch buffer.
+		if h.sideSM != nil {
+			buf := append(make([]byte, 0, 64), "part-of-"...)
+			buf = append(buf, h.names[k]...)
+			_ = h.sideSM.Write(ctx, buf, n)
+			_ = h.sideOF.Write(ctx, buf, n)
+
+			for i := range buf {
+				buf[i] = 0xEE
+			}
+		}
+
 		if h.nested && k == 0 && len(h.keys) > 1 {
 			nctx := ctx
 
